@@ -42,7 +42,7 @@ theorem wvalH_of_ok {rank : SlabID → Nat} {w : World} {ctr : Nat} (H : WorldOk
   | child x wr =>
     obtain ⟨h1, h2, h3, h4⟩ := hv
     obtain ⟨rank', hr, hlt⟩ := rank_insert H.rank H.unique h2 h3
-    exact ⟨rank', hr, fun e => h3 (e ▸ Anc.refl), hlt, h4, h1⟩
+    exact ⟨rank', hr, fun e => h3 (e ▸ Anc.refl), hlt.1, h4, h1⟩
 
 /-- what an operation theorem of `World/HeapWOps*.lean` delivers, in the vocabulary of C09 -/
 theorem complete_of_post {w w' : World} {cx cx' : Ctx} (h : Post w cx w' cx') (Hh : HeapOk w cx.ctr) :
